@@ -28,10 +28,13 @@ Expected(i) ==
     CASE R.cls = "pos" -> Pos(P(i).u, P(i).v, R.de)
       [] R.cls = "cat" -> CatPart(i)
       [] R.cls = "comb" -> Comb(R.alpha, R.beta, Pos(P(i).u, P(i).v, R.de), CatPart(i))
-HasFormula == R.cls = "pos" \/ R.cat \in {"abs", "pre", "lam"}
+HasFormula == R.cls = "pos" \/ R.cat \in {"abs", "pre"}
 
 ObsFormula == HasFormula => \A i \in 1..NP : Exact(i) => NearR(P(i).d, Expected(i))
 ObsCompiledFormula == HasFormula => \A i \in 1..NP : Exact(i) => NearR(P(i).comp, Expected(i))
+\* user-defined Lambda subclasses: how the matrix is derived from the user's function is NOT part of the statement of C04;
+\* reported as a beyond-statement deviation, never as a violation
+ObsLambdaFormula == R.cat = "lam" => \A i \in 1..NP : Exact(i) => NearR(P(i).d, Expected(i)) /\ NearR(P(i).comp, Expected(i))
 ObsTwoForms == \A i \in 1..NP : NearFx(P(i).d, P(i).comp)                   \* d() and the compiled form agree
 ObsSymmetric == \A i \in 1..NP : NearFx(P(i).d, P(i).dsym) /\ NearFx(P(i).comp, P(i).compsym)
 ObsNonNegative == \A i \in 1..NP : P(i).d >= 0 /\ P(i).comp >= 0
@@ -80,4 +83,5 @@ Verdicts ==
     /\ Judge("ObsProportional", ObsProportional)
     /\ Judge("ObsCombinedOneDeltaEmpty", ObsCombinedOneDeltaEmpty)
     /\ Judge("ObsLevenshtein", ObsLevenshtein)
+    /\ Judge("ObsLambdaFormula", ObsLambdaFormula)
 =============================================================================
